@@ -125,13 +125,17 @@ class DocGen:
         r = self.rng
         name, t = r.choice(cands)
         c = self.comparison_on(name, t)
-        if r.random() < 0.3 and len(cands) >= 2:
-            n2, t2 = r.choice([c_ for c_ in cands if c_[0] != name] or cands)
+        if r.random() < 0.4 and len(cands) >= 2:
+            def exact(tt):   # derived value exactly representable: uncalibrated, or integer-coefficient linear polynomial
+                return tt.kind == "integer" and not tt.enc.context_cals and (tt.enc.default_cal is None or integral_poly(tt.enc.default_cal))
+            pool2 = [c_ for c_ in cands if c_[0] != name] or cands
+            # prefer a right-hand parameter whose calibrated value differs from its raw value: only then do the two value selectors
+            # (useCalibratedValue on either side) make a difference
+            cal2 = [c_ for c_ in pool2 if exact(c_[1]) and c_[1].enc.default_cal is not None]
+            n2, t2 = r.choice(cal2) if cal2 and r.random() < 0.6 else r.choice(pool2)
             if t.kind != "enumerated" and t2.kind != "enumerated":
-                def exact(tt):   # derived value exactly representable: uncalibrated, or integer-coefficient linear polynomial
-                    return tt.kind == "integer" and not tt.enc.context_cals and (tt.enc.default_cal is None or integral_poly(tt.enc.default_cal))
-                lc = r.random() < 0.5 if exact(t) else False
                 rc = r.random() < 0.5 if exact(t2) else False
+                lc = ((not rc) if r.random() < 0.7 else rc) if exact(t) else False
                 return ir.Condition(name, c.op, right_param=n2, left_cal=lc, right_cal=rc)
         return ir.Condition(name, c.op, right_value=c.value, left_cal=c.calibrated, right_cal=False)
 
